@@ -123,12 +123,26 @@ func c12DrawOps(t *rapid.T) []c12Op {
 	}
 	// a long run of bare acquire/release cycles of one node somewhere in the history: ID schemes that pack a counter
 	// into a few bits, or wrap, only collide after tens of thousands of reuses of the same pooled node
+	// (under -race sync.Pool drops a quarter of all Puts at random, so a node survives only a few reuses there: the long
+	// runs are TestC12Churn's, on the plain build)
 	if rapid.IntRange(0, 24).Draw(t, "withChurn") == 12 {
 		at := rapid.IntRange(0, len(ops)).Draw(t, "churnAt")
-		k := rapid.SampledFrom([]int{300, 70000, 70000, 140000}).Draw(t, "churnK")
-		ops = append(ops[:at], append([]c12Op{{Op: "churn", K: k}}, ops[at:]...)...)
+		ops = append(ops[:at], append([]c12Op{{Op: "churn", K: 300}}, ops[at:]...)...)
 	}
 	return ops
+}
+
+// genC12Churn: a short history with one long run of acquire/release cycles in it (plain build: the pool hands the same
+// node back every time, so one physical node is reused K times).
+func genC12Churn(t *rapid.T) c12Case {
+	ops := c12DrawOps(t)
+	if len(ops) > 24 {
+		ops = ops[:24]
+	}
+	at := rapid.IntRange(0, len(ops)).Draw(t, "longChurnAt")
+	k := rapid.SampledFrom([]int{66000, 70000, 140000, 270000}).Draw(t, "longChurnK")
+	ops = append(ops[:at:at], append([]c12Op{{Op: "churn", K: k}}, ops[at:]...)...)
+	return c12Case{Kind: "ops", Ops: ops}
 }
 
 func genC12(t *rapid.T) c12Case {
@@ -867,4 +881,8 @@ func checkC12(c c12Case) obs.Result {
 
 func TestC12(t *testing.T) {
 	obs.Run(t, "C12", genC12, checkC12)
+}
+
+func TestC12Churn(t *testing.T) {
+	obs.Run(t, "C12", genC12Churn, checkC12)
 }
